@@ -224,8 +224,6 @@ def units(tier, seed):
     for prog in PR.catalogue():
         if prog.name in seen or 'slow' in prog.tags or 'heavy' in prog.tags or any(t.startswith('fac:') for t in prog.tags) or 'utpmonly' in prog.tags or 'clip' in prog.tags:
             continue
-        if prog.name in ('sum(axis=0)', 'sum(square,axis=0)'):
-            continue     # known finding of C03 (pb_sum argument order)
         branching = 'clip' in prog.tags or 'lu' in prog.tags or 'posdet' in prog.tags or prog.name in ('absolute', 'sign')
         hsel = [('F22', 'PB', 'PB')] if tier == 'quick' else [('F22', 'PB', 'PB'), ('F22', 'PB', 'SAME', 'PB'), ('F32', 'PB', 'F11', 'PB')]     # (no driver calls here: they are defined for functions R^N -> R^M only)
         if branching:
